@@ -195,8 +195,8 @@ func genLiveness(p proto, t *simrt.Tape, tier string) *ccCfg {
 
 // ---------------------------------------------------------------- C12 retry schedule
 
-var retryTs = []time.Duration{ms(1), ms(7), ms(50), ms(150), time.Second, 5 * time.Second}
-var retryNs = []int{1, 2, 3, 4, 5, 6, -1}
+var retryTs = []time.Duration{ms(1), 1337 * time.Microsecond, ms(7), ms(50), ms(150), time.Second, 5 * time.Second}
+var retryNs = []int{1, 2, 3, 4, 5, 6, 0, -1, -3}
 
 // retryGrid enumerates (T, n, k): k = 0 means no acceptable response.
 func retryGrid() [][3]int {
@@ -281,6 +281,12 @@ func genRetry(p proto, t *simrt.Tape, tier string) *ccCfg {
 	}
 	cfg.span = bound + 2*T
 	cfg.callers = [][]callSpec{{sp}}
+	if cfg.tries >= 0 && cfg.tries <= 3 && t.Coin(1, 3) {
+		// a second call on the same client (same or another id): the schedule starts afresh
+		sp2 := callSpec{xid: cfg.pool[t.Choose(2)*2], mk: mkType, startDelay: pick(t, 0, ms(1)/4, T)}
+		cfg.callers[0] = append(cfg.callers[0], sp2)
+		cfg.span += bound + 2*T
+	}
 	// bystanders on other ids
 	nby := t.Weighted(3, 2, 1)
 	for i := 0; i < nby; i++ {
